@@ -1231,6 +1231,15 @@ class ModelBuilder:
                     self._create_scenario(project, value)
                 elif key == "extend":
                     pass  # Handle extensions later
+                elif key == "workinghours" and isinstance(value, dict):
+                    # Project-wide default working hours (several statements accumulate)
+                    from scriptplan.core.working_hours import WorkingHours
+
+                    wh = project.attributes.get("workinghours")
+                    if not isinstance(wh, WorkingHours):
+                        wh = WorkingHours(project)
+                    wh.set_hours(value.get("days", []), value.get("ranges", []))
+                    project.attributes["workinghours"] = wh
                 else:
                     with contextlib.suppress(ValueError, KeyError):
                         project[key] = value
